@@ -304,6 +304,7 @@ def run(ctx: Ctx) -> None:
         ctx.extra["tie_cases"] = len(cases)
     e2e(ctx, checks, alpha)
     amend_does_not_unload(ctx, checks, alpha)
+    same_number_other_prefix(ctx, checks)
     ctx.resolve_broken({"ladder_matches_readme": "", "explicit_code_beats_category": "", "ignore_silences_everywhere": "",
                         "all_switch_resets": "merge-drops", "lists_are_combined": "", "selection_matches_history": "",
                         "flags_and_ignores_merge": "", "path_scoped_never_unloads": "path-scoped",
@@ -364,3 +365,54 @@ def e2e(ctx: Ctx, checks, alpha) -> None:
             if listed != want:
                 ctx.report("verbose-listing", f"--verbose with {argv} lists {len(listed)} checks, {len(want)} can report",
                            {"argv": argv, "only_listed": sorted(listed - want)[:5], "not_listed": sorted(want - listed)[:5]})
+
+
+PLUGIN_SAME_NUMBER = '''\
+from dataclasses import dataclass
+from mypy.nodes import CallExpr, NameExpr
+from refurb.error import Error
+
+
+@dataclass
+class ErrorInfo(Error):
+    prefix = "ACME"
+    code = {code}
+    categories = ("acme",)
+    msg: str = "probe"
+
+
+def check(node: CallExpr, errors: list[Error]) -> None:
+    match node:
+        case CallExpr(callee=NameExpr(name="int")):
+            errors.append(ErrorInfo.from_node(node, "probe"))
+'''
+
+
+def same_number_other_prefix(ctx: Ctx, checks) -> None:
+    """A plugin check whose number a built-in check also has: every selector (ignore / disable / enable, on the command line, in the
+    config file, as a bare integer) names one of the two and leaves the other alone, in what is loaded, listed and reported."""
+    k1 = checks[0]
+    with tempfile.TemporaryDirectory(prefix="c09p-") as td:
+        (Path(td) / "acme_plug.py").write_text(PLUGIN_SAME_NUMBER.replace("{code}", str(k1.code)))
+        (Path(td) / "t.py").write_text("x = int(0)\n")
+        env = {"PYTHONPATH": f"{td}:{L.ENV['PYTHONPATH']}"}
+        both = {f"FURB{k1.code}", f"ACME{k1.code}"}
+        scen = [("nothing", [], "", both), ("ignore-builtin", ["--ignore", f"FURB{k1.code}"], "", {f"ACME{k1.code}"}), ("ignore-plugin", ["--ignore", f"ACME{k1.code}"], "", {f"FURB{k1.code}"}),
+                ("ignore-bare-number", ["--ignore", str(k1.code)], "", {f"ACME{k1.code}"}), ("disable-builtin", ["--disable", f"FURB{k1.code}"], "", {f"ACME{k1.code}"}),
+                ("disable-plugin", ["--disable", f"ACME{k1.code}"], "", {f"FURB{k1.code}"}), ("config-ignore-builtin", [], f'ignore = ["FURB{k1.code}"]\n', {f"ACME{k1.code}"}),
+                ("config-ignore-integer", [], f"ignore = [{k1.code}]\n", {f"ACME{k1.code}"}), ("config-ignore-plugin", [], f'ignore = ["ACME{k1.code}"]\n', {f"FURB{k1.code}"}),
+                ("only-plugin", ["--disable-all", "--enable", f"ACME{k1.code}"], "", {f"ACME{k1.code}"}), ("only-builtin", ["--disable-all", "--enable", f"FURB{k1.code}"], "", {f"FURB{k1.code}"}),
+                ("ignore-builtin-category", ["--ignore", "#" + k1.categories[0]], "", {f"ACME{k1.code}"}), ("ignore-plugin-category", ["--ignore", "#acme"], "", {f"FURB{k1.code}"}),
+                ("enable-all-ignore-builtin", ["--enable-all", "--ignore", f"FURB{k1.code}"], "", {f"ACME{k1.code}"})]
+        for name, argv, cfg, want in scen:
+            (Path(td) / "pyproject.toml").write_text('[tool.refurb]\nload = ["acme_plug"]\n' + cfg)
+            rc, out, err = L.cli(["t.py", "--verbose", *argv], cwd=td, env_extra=env)
+            reported = {c for c in both if f"[{c}]" in out}
+            m = re.search(r"^Enabled checks: (.*)$", out, flags=re.M)
+            listed = {c for c in both if m and c in m.group(1).split(", ")}
+            ctx.case(("same-number", name), nontrivial=True)
+            ctx.count("plugin-shares-a-number-with-a-builtin")
+            if not L.clean_verdict(rc, out, err) or reported != want:
+                ctx.report(f"selection-differs:same-number:{name}", f"plugin check ACME{k1.code} beside FURB{k1.code}, options {argv or cfg.strip()}: reported {sorted(reported)}, expected {sorted(want)} (listed as enabled: {sorted(listed)})",
+                           {"argv": ["t.py", "--verbose", *argv], "pyproject.toml": '[tool.refurb]\nload = ["acme_plug"]\n' + cfg, "plugin": PLUGIN_SAME_NUMBER.replace("{code}", str(k1.code)),
+                            "file": "x = int(0)", "stdout": out[-500:], "stderr": err[-300:]})
